@@ -13,6 +13,12 @@ T = {
  "C05": ("vexec", "runtime monitoring: planted rejections + full read-out equality + reference-model oracle",
   "Calls that must be rejected (22 classes covering every failure cause named in the property, alone and as an item of a batch/import) are planted at random positions of generated histories; a rejected call must leave the complete public read-out identical, the index usable, and — after further history and a restart — the state equal to the model in which the call never happened. Held on the executions observed.",
   "Which calls must be rejected is predicted by harness/vexec; a call is 'rejected' iff it returns a non-nil error."),
+ "C10": ("vexec", "runtime monitoring: exhaustive short operation sequences + random engine histories against an edge-version reference model",
+  "The in-memory edge store is driven through ALL operation sequences up to length 3 (quick) / 4 (thorough) over a 39-letter alphabet with explicit timestamps and compared view by view with a version model (exhaustive over that bounded space); beyond it, random link/unlink/vacuum histories through the engine API with snapshot, compaction and plain restarts are compared at time 0 and at every history boundary. Exploration with an exhaustively enumerated core; held on what was enumerated/observed.",
+  "Incoming view = the engine-observable (hydrated) one, see DESIGN.md C10 scope note. Engine timestamps are clock-bracketed and bound by read-back."),
+ "C12": ("vexec", "runtime monitoring with fault injection at hook points (held cascade + shutdown, crash images)",
+  "For generated graphs the delete cascade is interrupted at every kind of point it has (before it starts, after k steps, journal/apply gap of the delete, at its end) by engine shutdown or by taking a crash image of the data directory, then recovered; after settle, after recovery and after a further restart no current graph query may involve the deleted node unless it was linked again, and all other edges must equal the model. Fault enumeration over the cascade's step boundaries on explored graphs.",
+  "Crash = process death modelled by a sparse copy of the data dir taken inside the process after an AOF flush; cascade progress observed through verifhook points."),
  "C04": ("vexec", "runtime monitoring: reference-model oracle over generated operation histories",
   "Seeded random operation histories (adds, batches, imports, deletes, re-adds, merges, reinforce, evolve, graph ops, KV) interleaved with maintenance/admin ops run against the real engine; every read the property names is compared with a map-of-records reference model, and the model also predicts which calls must be accepted or rejected. Held on the executions observed, not a proof.",
   "Trusts the reference model (harness/vexec/model.go) as the reading of the property; vector equality per precision as fixed in DESIGN.md 2.4."),
